@@ -15,7 +15,7 @@ from scipy.integrate import solve_ivp
 
 from . import gridcheck
 
-VERSION = 6
+VERSION = 7
 
 
 def _trace_segment(ref, nu, pa, pb, h):
@@ -84,7 +84,16 @@ def _trace_segment(ref, nu, pa, pb, h):
     # sum over a tiling of windows ~ (1/w) x sum over all sliding windows
     chord_err = float(numpy.sum(win**2) / w * min(h, s_end) / 24.0) if len(win) else 0.0
     chord_err = max(chord_err, float(numpy.max(win) ** 2 * min(h, s_end) / 24.0))
-    return dict(arc=s_end, int_nu=float(ye[2]), miss=miss, turning=turning, trap_err=trap_err, dnu=dnu, chord_err=chord_err, dir=direction)
+    # direction of travel along the surface, as a statement about the *grid*: only reported when the
+    # chord pa -> pb is clearly aligned with the surface tangent at both ends (a cell that wraps round a
+    # sharp bend next to an X-point says nothing about the order of its two ends)
+    ch = (pb - pa) / chord
+    t1 = numpy.array([-float(ref.dZ(pb[0], pb[1])), float(ref.dR(pb[0], pb[1]))])
+    c0 = float(numpy.dot(t0, ch)) / max(float(numpy.hypot(*t0)), 1e-300)
+    c1 = float(numpy.dot(t1, ch)) / max(float(numpy.hypot(*t1)), 1e-300)
+    reliable = (c0 * c1 > 0) and min(abs(c0), abs(c1)) > 0.3
+    return dict(arc=s_end, int_nu=float(ye[2]), miss=miss, turning=turning, trap_err=trap_err, dnu=dnu, chord_err=chord_err,
+                dir=direction if reliable else 0.0)
 
 
 def traces_for(case):
